@@ -293,19 +293,42 @@ fn session_main(args: &Args) {
                 let a = &names[0];
                 let b = &names[1];
                 let c = &names[2];
-                let item = match rng.below(8) {
-                    // valid, defines a b
-                    0 | 1 => (vec![pc_lab("ld", 1, b).lab(a), add_i(1, 1, 1), fill(7).lab(b), plain("halt")], None),
-                    // valid, same labels as its predecessor may have used, other order
-                    2 => (vec![fill(1).lab(b), br_lab(7, a), plain("halt").lab(a), pc_lab("lea", 0, c), stringz("q").lab(c)], None),
+                // filler statements move the labels to different lines in every source
+                let pad = |rng: &mut Rng| filler(rng.below(4) as usize, rng);
+                let mut item = match rng.below(9) {
+                    // valid, defines a b, forward reference to b
+                    0 | 1 => {
+                        let mut v = vec![pc_lab("ld", 1, b).lab(a), add_i(1, 1, 1)];
+                        v.extend(pad(&mut rng));
+                        v.push(fill(7).lab(b));
+                        v.push(plain("halt"));
+                        (v, None)
+                    }
+                    // valid, same labels in another order, forward references to a and c
+                    2 => {
+                        let mut v = vec![fill(1).lab(b), br_lab(7, a)];
+                        v.extend(pad(&mut rng));
+                        v.push(plain("halt").lab(a));
+                        v.push(pc_lab("lea", 0, c));
+                        v.extend(pad(&mut rng));
+                        v.push(stringz("q").lab(c));
+                        (v, None)
+                    }
                     // fails in the lexer
                     3 => (vec![add_i(0, 0, 1).lab(a)], Some(format!("{} add r0 r0 #1\n{} .stringz \"unterminated\nhalt\n", a, b))),
                     4 => (vec![add_i(0, 0, 1).lab(a)], Some(format!("{} add r0 r0 #1\n.bogus\n{} halt #99999\n", a, b))),
                     // fails after some labels were recorded: duplicate label / undefined reference / parse error at the end
                     5 => (vec![add_i(0, 0, 1).lab(a), fill(2).lab(b), plain("halt").lab(a)], None),
                     6 => (vec![add_i(0, 0, 1).lab(a), pc_lab("ld", 2, "nowhere_"), fill(2).lab(b)], None),
+                    // references (forward) a label that only OTHER sources of the sequence define
+                    7 => (vec![br_lab(7, b), pc_lab("ld", 3, c), plain("halt").lab(a)], None),
                     _ => (vec![add_i(0, 0, 1).lab(a), fill(2).lab(b), add_i(1, 1, 99).lab(c)], None),
                 };
+                if item.1.is_none() && rng.chance(1, 2) {
+                    let mut v = pad(&mut rng);
+                    v.extend(item.0);
+                    item.0 = v;
+                }
                 seq.push(item);
             }
             // the sequence, then the same sequence again (repetition gives the same result every time)
